@@ -295,12 +295,23 @@ class Contracts:
     def __init__(self):
         self.evals = collections.Counter()
         self.failures = []
+        self.errors = []
         self.installed = False
         self.local = threading.local()
 
     def fail(self, name, detail):
         if len(self.failures) < 200:
             self.failures.append((name, detail))
+
+    def error(self, name, exc):
+        """the contract itself could not be evaluated (e.g. an internal it reads was renamed): that is
+        the harness's problem and makes the run inconclusive - never a violation"""
+        if len(self.errors) < 50:
+            self.errors.append(f"contract {name} could not be evaluated: {type(exc).__name__}: {exc}")
+
+    def take_errors(self):
+        e, self.errors = self.errors, []
+        return e
 
     def take(self):
         f, self.failures = self.failures, []
@@ -336,7 +347,7 @@ class Contracts:
                             or out.failure_indices != [i for i, r in enumerate(res) if not r]):
                         K.fail("K1", f"partition not induced by result; cond={self!r}")
             except Exception as e:  # contract itself must not disturb the run
-                K.fail("K1", f"contract error {type(e).__name__}: {e}")
+                K.error("K1", e)
             return out
 
         C.Condition._filter = k1
@@ -359,7 +370,7 @@ class Contracts:
                 if out.result != exp2 or len(out.result) != len(r0) or len(r0) != len(r1):
                     K.fail("K2", f"{sym}: {r0} , {r1} -> {out.result}")
             except Exception as e:
-                K.fail("K2", f"contract error {type(e).__name__}: {e}")
+                K.error("K2", e)
             return out
 
         C.ConditionBinaryOp._filter = k2
@@ -421,7 +432,7 @@ class Contracts:
                     if canon([v for v, _ in pairs]) != canon(list(pv)):
                         K.fail("K3", "values with paths differ from values without")
             except Exception as e:
-                K.fail("K3", f"contract error {type(e).__name__}: {e}")
+                K.error("K3", e)
             finally:
                 K.local.in_k3 = False
             return out
@@ -454,7 +465,7 @@ class Contracts:
                     if node is not it.value and canon(node) != canon(it.value):
                         K.fail("K4", f"failure path {it.path!r} reaches {node!r} not {it.value!r}")
             except Exception as e:
-                K.fail("K4", f"contract error {type(e).__name__}: {e}")
+                K.error("K4", e)
             return out
 
         R.RuleTest._test = k4
@@ -479,7 +490,7 @@ class Contracts:
                     if r.rule is not rule:
                         K.fail("K5", "rule_tests not in schema.rules order")
             except Exception as e:
-                K.fail("K5", f"contract error {type(e).__name__}: {e}")
+                K.error("K5", e)
 
         S.ValidatedData.__init__ = k5
         self.installed = True
